@@ -1,2 +1,18 @@
-// verification hooks (see /verif/DESIGN.md section 10); compiled only with --features verif-hooks
+// Verification hooks for src/lfu/tinylfu/sketch/count_min_row.rs
 #![allow(missing_docs, dead_code, unused_imports)]
+use super::*;
+
+impl CountMinRow {
+    /// build a row from raw bytes (two 4-bit counters per byte)
+    pub(crate) fn verif_from_bytes(bytes: alloc::vec::Vec<u8>) -> Self {
+        CountMinRow(bytes)
+    }
+    pub(crate) fn verif_bytes(&self) -> &[u8] {
+        &self.0
+    }
+    /// counter i of the abstract view (nibble i%2 of byte i/2), read directly from the bytes
+    pub(crate) fn verif_ctr(&self, i: usize) -> u8 {
+        let b = self.0[i / 2];
+        if i % 2 == 1 { b >> 4 } else { b & 0x0f }
+    }
+}
